@@ -86,7 +86,7 @@ pub fn agreement_check(w: &mut World, info: &RoundInfo) {
 
 pub fn run(a: &Args) -> ShardOut {
     let mut total = ShardOut::default();
-    let (histories, rounds) = if a.thorough { (40, 40) } else { (3, 22) };
+    let (histories, rounds) = if a.thorough { (60, 45) } else { (10, 25) };
     for h in 0..histories {
         if let Some(only) = super::only_history() {
             if only != h {
